@@ -169,7 +169,14 @@ func buildHost(tape *sim.Tape, bad bool) *c11Host {
 					post = "\") , red )"
 				}
 			}
-			doc.WriteString(fmt.Sprintf(".c%d { background : %s", i, pre))
+			layers := ""
+			if tape.Draw(5) == 0 {
+				// one declaration with dozens of comma-separated layers in front of the URL
+				for k, n := 0, 40+tape.Draw(40); k < n; k++ {
+					layers += fmt.Sprintf("url( img%d.png ) no-repeat , ", k)
+				}
+			}
+			doc.WriteString(fmt.Sprintf(".c%d { background : %s%s", i, layers, pre))
 			s := c11Slot{MT: mt, Payload: pl, Ctx: "css url(data:)", Via: "datauri", Attr: true}
 			s.Start = doc.Len()
 			doc.WriteString(enc)
